@@ -50,15 +50,15 @@ Proof. unfold halloc. intros H. injection H as <- <-. auto. Qed.
 
 (* typed reads *)
 Lemma get_user_ok h o u : get_user h o = Ok u <-> hget h o = Some (CUser u).
-Proof. unfold get_user. destruct (hget h o) as [[| | |u'|]|]; split; intros H; try discriminate; congruence. Qed.
+Proof. unfold get_user. destruct (hget h o) as [[| | |u'| |pl]|]; split; intros H; try discriminate; congruence. Qed.
 Lemma get_chan_ok h o c : get_chan h o = Ok c <-> hget h o = Some (CChan c).
-Proof. unfold get_chan. destruct (hget h o) as [[| | | |c']|]; split; intros H; try discriminate; congruence. Qed.
+Proof. unfold get_chan. destruct (hget h o) as [[| | | |c'|pl]|]; split; intros H; try discriminate; congruence. Qed.
 Lemma get_strs_ok h o l : get_strs h o = Ok l <-> hget h o = Some (CStrs l).
-Proof. unfold get_strs. destruct (hget h o) as [[l'| | | |]|]; split; intros H; try discriminate; congruence. Qed.
+Proof. unfold get_strs. destruct (hget h o) as [[l'| | | | |pl]|]; split; intros H; try discriminate; congruence. Qed.
 Lemma get_modes_ok h o l : get_modes h o = Ok l <-> hget h o = Some (CModes l).
-Proof. unfold get_modes. destruct (hget h o) as [[|l'| | |]|]; split; intros H; try discriminate; congruence. Qed.
+Proof. unfold get_modes. destruct (hget h o) as [[|l'| | | |pl]|]; split; intros H; try discriminate; congruence. Qed.
 Lemma get_perms_ok h o m : get_perms h o = Ok m <-> hget h o = Some (CPerms m).
-Proof. unfold get_perms. destruct (hget h o) as [[| |m'| |]|]; split; intros H; try discriminate; congruence. Qed.
+Proof. unfold get_perms. destruct (hget h o) as [[| |m'| | |pl]|]; split; intros H; try discriminate; congruence. Qed.
 
 Lemma rbind_ok {A B} (r : res A) (f : A -> res B) b : rbind r f = Ok b -> exists a, r = Ok a /\ f a = Ok b.
 Proof. destruct r; simpl; [eauto|discriminate]. Qed.
